@@ -209,7 +209,7 @@ func runC08(r *ev.Run) {
 		"acknowledged-and-not-removed ⊆ result ⊆ ever-added, removed ids absent; for vector-only queries the id set (k large and small) is compared with one in-memory hybrid index fed the same successful ops. " +
 		"stream 'schedule': every hook point of the flush / segment-load / search path x action {add, add forcing rotation, search-all, Flush, evict} run beside the paused goroutine, visibility re-checked afterwards; " +
 		"structural monitor: sub-index instances (pointer identity) owned by more than one memtable / loaded segment / compaction output or equal to a template are counted as violations. " +
-		"non-trivial = history with >=1 rotation, >=1 flush, >=1 eviction-then-search and >=1 removal; distinct by (params, history digest)"
+		"non-trivial = history with >=1 rotation, >=1 flush, >=1 eviction-then-search and >=1 removal; distinct by (params, history digest) Since the seed waves: injected I/O fault on Flush, Train through the store, PQ / IVFPQ templates (visibility only), documents sharing one vector (small-k comparison on reference distances: strictly nearer than the k-th distance must be present), a held store search object, stream 'train-late' (untrained ivf template, vector-less documents, then store.Train), schedule point memtable.add.locked and roomy variants."
 	r.Assumptions = []string{"background flush interleavings are whatever the scheduler produces; the oracle (visibility) does not depend on them", "a Remove that returns an error removes nothing from the model (removal is documented to reach the writable memtable only)"}
 	n := r.Pick(120, 2500)
 	r.CasesParallel("history", n, 8, func(ci int, rng *rand.Rand) {
